@@ -409,14 +409,14 @@ pub fn c11_converse_weighted_n3() {
 }
 
 // AdjacencyList::union (threaded) of every order-2 with every order-3 digraph, 2 worker threads.
-// @verif prop=C11 tier=thorough fl=f2 role=union/adjacency-list t=3600 mem=30 par=2
+// @verif prop=C11 tier=exp fl=f2 role=union/adjacency-list t=3600 mem=30 par=2
 #[cfg_attr(kani, kani::proof)]
 #[cfg_attr(kani, kani::unwind(8))]
 pub fn c11_union_adjacency_list_n2_m3_t2() {
     union::<AdjacencyList, 2, 3, 3>(cx::EXACT + 2);
 }
 
-// @verif prop=C11 tier=thorough fl=f2 role=union/adjacency-list t=3600 mem=30
+// @verif prop=C11 tier=exp fl=f2 role=union/adjacency-list t=3600 mem=30
 #[cfg_attr(kani, kani::proof)]
 #[cfg_attr(kani, kani::unwind(8))]
 pub fn c11_union_adjacency_list_n2_m3_p4() {
@@ -438,14 +438,14 @@ pub fn c11_union_edge_list_n3_m2() {
 }
 
 // AdjacencyMap::union (merge-path partitioning over threads), orders 2 and 2, 2 worker threads.
-// @verif prop=C11 tier=thorough fl=f2 feat=map4 role=union/adjacency-map t=3600 mem=30 par=2
+// @verif prop=C11 tier=exp fl=f2 feat=map4 role=union/adjacency-map t=3600 mem=30 par=2
 #[cfg_attr(kani, kani::proof)]
 #[cfg_attr(kani, kani::unwind(8))]
 pub fn c11_union_adjacency_map_n2_m2_t2() {
     union::<AdjacencyMap, 2, 2, 2>(cx::EXACT + 2);
 }
 
-// @verif prop=C11 tier=thorough fl=f2 feat=map4 role=union/adjacency-map t=3600 mem=30
+// @verif prop=C11 tier=exp fl=f2 feat=map4 role=union/adjacency-map t=3600 mem=30
 #[cfg_attr(kani, kani::proof)]
 #[cfg_attr(kani, kani::unwind(8))]
 pub fn c11_union_adjacency_map_n2_m2_p4() {
@@ -512,7 +512,7 @@ pub fn c11_filter_adjacency_map_n2() {
 // AdjacencyList::union of every order-1 with every order-2 digraph, 2 worker threads.
 // (thorough only: CBMC reports a "misaligned pointer to reference cast" in slice::from_raw_parts on this
 // path that neither a native run nor Miri confirms; the run then ends inconclusive, exit 2.)
-// @verif prop=C11 tier=thorough fl=f2 role=union/adjacency-list t=1500 mem=24 par=2
+// @verif prop=C11 tier=exp fl=f2 role=union/adjacency-list t=1500 mem=24 par=2
 #[cfg_attr(kani, kani::proof)]
 #[cfg_attr(kani, kani::unwind(8))]
 pub fn c11_union_adjacency_list_n1_m2_t2() {
